@@ -134,6 +134,7 @@ example : XP.SVD.IsSVD (!![2, 0; 0, 1; 0, 0] : Matrix (Fin 3) (Fin 2) ℝ) !![1,
 
 /-- source obligation (HilbertEOF): the spurious mean that padding introduces in the imaginary part is removed per feature
 (along the sample axis), so every column of the analytic signal keeps the mean of the real data -/
-theorem src_hilbert_recentres_per_feature : Gen.hilbertRecentreMeanArgs = "axis=0" := by decide
+theorem src_hilbert_recentres_per_feature :
+    Gen.hilbertRecentreMeanArgs = "axis=0" ∧ Gen.hilbertRecentreAfterCutUnconditional = true := by decide
 
 end C01
